@@ -9,6 +9,7 @@ import (
 	"os"
 	"path/filepath"
 	"sort"
+	"strconv"
 	"strings"
 	"sync"
 	"time"
@@ -272,6 +273,7 @@ func (w *wbuild) driveRemote(s *simrt.Sched, out *RunResult, u *Universe, cs *wb
 		return &remoteMachine{Machine: m, store: st, cm: newCacheModel()}
 	}
 	A, B := mk("A"), mk("B")
+	w.remoteNH = map[string]string{}
 	remote := newCacheModel() // what the remote namespace certainly holds
 	var active *remoteMachine
 	activate := func(m *remoteMachine) {
@@ -417,7 +419,44 @@ func (w *wbuild) driveRemote(s *simrt.Sched, out *RunResult, u *Universe, cs *wb
 	activate(A)
 	firstWithoutRemote := c.Choose(3, "a-starts-without-remote") == 0
 	for i := 0; i < nops && len(s.Violations) == 0; i++ {
-		switch pick(c, "op", "build-a", "edit", "build-b", "build-a", "edit", "build-b", "wipe-outputs", "remote-loses-blob") {
+		ops := []string{"build-a", "edit", "build-b", "build-a", "edit", "build-b", "wipe-outputs", "remote-loses-blob"}
+		if w.g.Features["taint"] {
+			ops = append(ops, "taint")
+		}
+		switch ops[c.Choose(len(ops), "op")] {
+		case "taint":
+			// `grog taint` on the active machine; the marker goes through the mirror as well, so
+			// whether the other machine sees it is left open (MAY on both until executed)
+			labels := w.U.Labels()
+			var nh []string
+			for _, l := range labels {
+				if w.U.Specs[l].NonHermetic {
+					nh = append(nh, l)
+				}
+			}
+			if len(nh) > 0 && chance(c, 3, 4, "taint-non-hermetic") {
+				// forcing a non-hermetic target to run again while the environment has moved on:
+				// same key, new bytes - the re-recorded result must replace the old one everywhere
+				labels = nh
+				nu := w.U.Clone()
+				e, _ := strconv.Atoi(nu.Ext["epoch"])
+				nu.Ext["epoch"] = strconv.Itoa(e + 1)
+				w.mu.Lock()
+				w.U = nu
+				w.mu.Unlock()
+				cs.History = append(cs.History, HistOp{Op: "edit", Edit: &Edit{Op: "epoch-tick", Detail: nu.Ext["epoch"]}})
+			}
+			l := labels[c.Choose(len(labels), "taint-target")]
+			req := BuildReq{Kind: "taint", Patterns: []string{l}}
+			f.fired = 0
+			f.inv++
+			res := w.invoke(active.Machine, req, base, nil)
+			for _, mm := range []*remoteMachine{A, B} {
+				mm.cm.taint[l] = true
+				mm.cm.taintUnc[l] = true
+			}
+			cs.History = append(cs.History, HistOp{Op: "taint", Req: &req, Exit: &res.ExitCode, Note: "machine=" + active.Name})
+			shape = append(shape, "taint")
 		case "remote-loses-blob":
 			// the remote store loses a blob (lifecycle rule, manual cleanup): results that
 			// reference it degrade to a miss; whoever re-executes must upload it again
@@ -434,6 +473,7 @@ func (w *wbuild) driveRemote(s *simrt.Sched, out *RunResult, u *Universe, cs *wb
 				k := blobs[c.Choose(len(blobs), "lost-blob")]
 				delete(f.objects, k)
 				f.lossy = true
+				w.remoteLossy = true
 				note = k
 				simrt.Fault("remote-missing-object")
 			}
@@ -520,7 +560,7 @@ func (w *wbuild) checkLocalFilled(m *remoteMachine, req BuildReq, opts InvOpts, 
 	}
 	for _, l := range sortedKeys(sel.Must) {
 		sp := w.U.Specs[l]
-		if sp.HasTag("no-cache") || sp.Fail != "" || w.U.ExtFail(sp) != "" || len(sp.Checks) > 0 || !absentBefore[l] || executed[l] {
+		if sp.NonHermetic || sp.HasTag("no-cache") || sp.Fail != "" || w.U.ExtFail(sp) != "" || len(sp.Checks) > 0 || !absentBefore[l] || executed[l] {
 			continue
 		}
 		failedDep := false
